@@ -267,7 +267,8 @@ fn parse_mmdd_str(mmdd: &str, ref_date: &NaiveDate) -> Option<NaiveDate> {
 /// parse a string in logcat threadtime format:
 /// mm-dd hh:mm:ss.mss
 fn parse_threadtime_str(timestamp: &str, ref_date: &NaiveDate) -> Option<NaiveDateTime> {
-    if timestamp.len() != 18 {
+    // the regex accepts any unicode digit (\d) but the fixed offsets below need ascii
+    if timestamp.len() != 18 || !timestamp.is_ascii() {
         None
     } else {
         let date = parse_mmdd_str(&timestamp[0..5], ref_date).unwrap_or(*ref_date);
@@ -365,7 +366,14 @@ where
                                 ctid: self.ctid.to_owned(),
                             }),
                             payload,
-                            payload_text: Some(cap_str[loc_timestamp.1 + 1..].to_owned()),
+                            payload_text: Some(
+                                cap_str[loc_timestamp.1
+                                    + cap_str[loc_timestamp.1..]
+                                        .chars()
+                                        .next()
+                                        .map_or(0, |c| c.len_utf8())..] // the separator (\s) can be a multi-byte char
+                                    .to_owned(),
+                            ),
                             lifecycle: 0,
                         };
 
@@ -462,7 +470,14 @@ where
                                     ctid: self.ctid.to_owned(),
                                 }),
                                 payload,
-                                payload_text: Some(cap_str[loc_timestamp.1 + 1..].to_owned()),
+                                payload_text: Some(
+                                    cap_str[loc_timestamp.1
+                                        + cap_str[loc_timestamp.1..]
+                                            .chars()
+                                            .next()
+                                            .map_or(0, |c| c.len_utf8())..] // the separator (\s) can be a multi-byte char
+                                        .to_owned(),
+                                ),
                                 lifecycle: 0,
                             };
 
